@@ -969,6 +969,8 @@ class TestResult(unittest.TestResult):
     def addSkip(self, test, reason):
         if not hasattr(self, "_test_state"):
             # ``startTest`` was not called -- set up extected state
+            # (``stopTest`` will be called and will call ``testTearDown``)
+            self.testSetUp()
             self._test_state = test.__dict__
             count = test.countTestCases()
             self.testsRun += count
